@@ -175,4 +175,26 @@ AllNames(e) ==
   LET sub[i \in 0..Len(e.ch)] == IF i = 0 THEN {} ELSE sub[i - 1] \cup AllNames(e.ch[i].e)
   IN {e.name} \cup {e.attrs[i].v : i \in 1..Len(e.attrs)} \cup sub[Len(e.ch)]
 
+-----------------------------------------------------------------------------
+(* the text of the output (element.rs:256-428, the format strings), as a   *)
+(* function of the struct records: what "a syntactically valid sequence of *)
+(* Rust struct items" (C04) looks like for this renderer.  A text is such  *)
+(* a sequence iff it is LayoutStructs(ss) for records ss whose names are    *)
+(* legal (RenderProps!C04Tags); the harness's template parser proposes ss, *)
+(* RenderTrace checks the equation.                                        *)
+
+Indent == <<" "," "," "," ">>
+TypeText(f) ==
+  LET inner == IF f.vec THEN <<"V","e","c","<">> \o f.base \o <<">">> ELSE f.base
+  IN IF f.opt THEN <<"O","p","t","i","o","n","<">> \o inner \o <<">">> ELSE inner
+LayoutField(f) ==
+  (IF f.hasren THEN Indent \o <<"#","[","s","e","r","d","e","(","r","e","n","a","m","e"," ","="," ","\"">> \o f.ren \o <<"\"",")","]","\n">> ELSE <<>>)
+  \o Indent \o <<"p","u","b"," ">> \o f.ident \o <<":"," ">> \o TypeText(f) \o <<",","\n">>
+LayoutStruct(s) ==
+  LET body[i \in 0..Len(s.fields)] == IF i = 0 THEN <<>> ELSE body[i - 1] \o LayoutField(s.fields[i])
+  IN (IF s.hasderive THEN <<"#","[","d","e","r","i","v","e","(">> \o s.derive \o <<")","]","\n">> ELSE <<>>)
+     \o <<"p","u","b"," ","s","t","r","u","c","t"," ">> \o s.name \o <<" ","{","\n">> \o body[Len(s.fields)] \o <<"}","\n","\n">>
+LayoutStructs(ss) ==
+  LET acc[k \in 0..Len(ss)] == IF k = 0 THEN <<>> ELSE acc[k - 1] \o LayoutStruct(ss[k])
+  IN acc[Len(ss)]
 =============================================================================
